@@ -332,11 +332,15 @@ Definition process_msg (P : params) (self : N) (ord : list N) (nd : node) (m : m
     end.
 
 (** * onConsensusMsg for a message of the current height that arrived from peer [from] and
-    passed the receive check: duplicate suppression (not for commits), MsgPool.AddMsg, msgC. *)
-Definition deliver (nd : node) (from : N) (m : msg) : node :=
+    passed the receive check: duplicate suppression (not for commits), MsgPool.AddMsg, msgC.
+    Duplicates are recognised by the hash of the message BYTES; two messages with the same content
+    may differ in their (randomized) signature bytes, which the abstract signatures do not show:
+    [fresh] says that the bytes were not seen before although the content was. *)
+Definition deliver (nd : node) (from : N) (m : msg) (fresh : bool) : node :=
   if is_some (n_sealed nd) then nd
   else if negb (passes (verify_ok from m)) then nd
-  else if has_msg m (n_msgs nd) && negb (match m with MCommit _ _ _ _ _ _ => true | _ => false end) then nd
+  else if has_msg m (n_msgs nd) && negb fresh
+          && negb (match m with MCommit _ _ _ _ _ _ => true | _ => false end) then nd
   else upd_seen (upd_q (upd_msgs nd (add_msg m (n_msgs nd))) (n_q nd ++ [m])) (n_seen nd ++ [m]).
 
 (** * Actions (actionLoop: SealBlock -> sealProposal/sealBlock, EndorseBlock -> endorseBlock) *)
@@ -414,7 +418,7 @@ Definition propose (self : N) (nd : node) : node * list msg :=
 
 (** * Local events of one node *)
 Inductive levent :=
-| LNet (from : N) (m : msg)       (* a message from the network reaches onConsensusMsg *)
+| LNet (from : N) (m : msg) (fresh : bool)  (* a message from the network reaches onConsensusMsg *)
 | LProc (ord : list N)            (* processMsgEvent takes the head of msgC *)
 | LAct                            (* actionLoop takes the head of bftActionC *)
 | LTimer (t : timer) (ord : list N)
@@ -422,7 +426,7 @@ Inductive levent :=
 
 Definition local_step (P : params) (self : N) (nd : node) (ev : levent) : node * list msg :=
   match ev with
-  | LNet from m => (deliver nd from m, [])
+  | LNet from m fresh => (deliver nd from m fresh, [])
   | LProc ord =>
       match n_q nd with
       | [] => (nd, [])
@@ -467,7 +471,7 @@ Inductive event :=
 
 Definition lev_ok (net : list packet) (ev : levent) : bool :=
   match ev with
-  | LNet from m => existsb (pkt_eqb (mkPkt from m)) net
+  | LNet from m _ => existsb (pkt_eqb (mkPkt from m)) net
   | LProc ord => nodupb ord
   | LTimer _ ord => nodupb ord
   | _ => true
